@@ -255,9 +255,75 @@ class Walk:
                 return v[1]
         return None
 
+    BOOKKEEPING = None
+
+    def inlineable(self, names):
+        """a Compiler method (other than the ones modelled directly) whose own body moves the bookkeeping: it is walked in
+        place of the call, its closure parameters bound to the closures passed (inlining bound: 2 levels)"""
+        if getattr(self, "_inline_depth", 0) >= 2:
+            return None
+        known = (PUSH, POP, PROCESS, SUBEXPR, SCOPE_BEGIN, SCOPE_END, COMPILE_BEGIN, COMPILE_END, "compiler::Compiler::encode_if_then")
+        for n in names:
+            if not n.startswith("compiler::Compiler::") or n in known:
+                continue
+            g = self.F.fn(n, required=False)
+            if g is None or not g.hir or g is self.fn:
+                continue
+            from cao.facts import hir_walk
+            moves = [y for y in hir_walk(g.hir["body"]) if y.get("k") in ("call", "mcall") and
+                     any(c in (PUSH, POP) for c in hir_callee(y))]
+            if moves:
+                return g
+        return None
+
+    def inline(self, g, e):
+        params = list(g.hir.get("params", []))
+        args = list(e["args"])
+        if e["k"] == "mcall" and len(params) == len(args) + 1:
+            params = params[1:]
+        saved_env = dict(self.env)
+        for p_, a in zip(params, args):
+            if p_.get("k") != "bind":
+                continue
+            a_ = hir_strip(a)
+            if a_.get("k") == "closure":
+                self.env[p_["id"]] = ("#closure", a_)
+            else:
+                pl = self.place(a)
+                if pl is not None:
+                    self.env[p_["id"]] = pl
+                else:
+                    el = self.elem_of(a)
+                    if el is not None:
+                        self.env[p_["id"]] = ("#elem", el)
+        self._inline_depth = getattr(self, "_inline_depth", 0) + 1
+        try:
+            self.walk(g.hir["body"])
+        finally:
+            self._inline_depth -= 1
+            self.env = saved_env
+
     def call(self, e):
         names = hir_callee(e)
         args = list(e["args"])
+        # a call of a closure parameter of an inlined helper: the closure runs here, with the current bookkeeping
+        if e["k"] == "call":
+            fl = hir_local_id(hir_strip(e["f"])) if e.get("f") is not None else None
+            v = self.env.get(fl) if fl is not None else None
+            if isinstance(v, tuple) and v and v[0] == "#closure":
+                snap = self.snapshot()
+                self.walk(v[1]["body"])
+                self.require_same(snap, e.get("ln"), "closure passed to a helper")
+                return
+        g = self.inlineable(names)
+        if g is not None:
+            if e["k"] == "mcall":
+                self.walk(e["recv"])
+            for a in args:
+                if hir_strip(a).get("k") != "closure":
+                    self.walk(a)
+            self.inline(g, e)
+            return
         closure_args = [hir_strip(a) for a in args if hir_strip(a).get("k") == "closure"]
         plain = [a for a in args if hir_strip(a).get("k") != "closure"]
         if e["k"] == "mcall":
